@@ -152,8 +152,11 @@ func c18Gen(t *verifrt.Tape) *c18Scenario {
 	if sc.DenyPhase == 3 && hasTok {
 		sc.Handler = append(sc.Handler, c18Op{Op: "hdr", K: "X-Tok", V: "x" + c18Tok})
 	}
-	if t.Draw(8) == 0 {
-		sc.Handler = append(sc.Handler, c18Op{Op: "status", Code: 103})
+	if t.Draw(6) == 0 {
+		sc.Handler = append(sc.Handler, c18Op{Op: "status", Code: []int{103, 100, 102, 103}[t.Draw(4)]})
+		if t.Draw(4) == 0 {
+			sc.Handler = append(sc.Handler, c18Op{Op: "status", Code: 103})
+		}
 	}
 	if t.Draw(3) != 0 {
 		sc.Handler = append(sc.Handler, c18Op{Op: "status", Code: []int{200, 200, 201, 404, 500, 204, 304, 302}[t.Draw(8)]})
